@@ -305,7 +305,8 @@ func (c12) Run(e *Env) {
 			out.m = nil
 		}
 		if kind >= 3 {
-			out.err = errors.New("simulated provider error")
+			// what a provider's own request can fail with, while the cache's context is alive
+			out.err = []error{errors.New("simulated provider error"), fmt.Errorf("describe instances: %w", context.DeadlineExceeded), fmt.Errorf("describe instances: %w", context.Canceled)}[e.Draw(3)]
 			e.Fault("provider-error")
 		}
 		if kind == 1 || kind == 2 {
